@@ -13,7 +13,7 @@ RULES = {
 }
 CONTROL_REV = '078b142'  # thorough tier: the rules must still report the defects found (and since fixed) on the original tree
 CONTROLS = [('C04.R3', 'AffTree::generic_composition_inplace#call:Tree::remove_child'), ('C04.R3', 'AffTree::infeasible_elimination#call:Tree::try_remove_child')]
-FLOORS = {'C04.R1': 5, 'C04.R2': 15, 'C04.R3': 5, 'C04.R4': 5}
+FLOORS = {'C04.R1': 5, 'C04.R2': 15, 'C04.R3': 5, 'C04.R4': 7}
 EXPLANATION = 'Input-dimension / common-output-dimension preservation, absence of the childless-decision state, absence of the merge assertion panic, for all histories.'
 DOES_NOT_DECIDE = 'panics reachable through unwrap/indexing inside ndarray/minilp; numeric content of node functions'
 ALLOWED_WRITERS = {
@@ -153,6 +153,20 @@ def r4(ctx):
             ctx.ok('C04.R4', site, ok + ' (single-survivor guard judged under C03.R1)', t['span'])
         else:
             ctx.bad('C04.R4', site, 'merge_child_with_parent asserts exactly one child, but the other children of p are not removed before the call', t['span'])
+        # splicing out the root is refused with Err(RootNode): a caller that unwraps the result must have excluded the root
+        d = t['dest']['local']
+        unwrapped = [ub for ub, ut in b.calls() if Callee(ut['func']).name in ('unwrap', 'expect') and Callee(ut['func']).self_base in ('Result', 'Option')
+                     and ut['args'] and ut['args'][0]['k'] in ('move', 'copy') and ut['args'][0]['place']['local'] == d and not ut['args'][0]['place']['proj']]
+        if unwrapped:
+            facts_ = prune.cmp_facts(literals(b, R, bb))
+            if any(op == 'Ne' and s(x) == s(p) and is_call(y, 'Tree::get_root_idx') for op, x, y in facts_):
+                ctx.ok('C04.R4', site + ':root', 'the result is unwrapped only where p != root was established', t['span'])
+            elif b.qname == 'AffTree::generic_composition_inplace':
+                # here p can be the root of the right operand; forwarding needs a rejected sibling, and explore() never rejects an edge below the
+                # root: that is the root-shortcut instance (AffTree::is_edge_feasible#root-shortcut) of this same check
+                ctx.ok('C04.R4', site + ':root', 'forwarding at the root is excluded by the root shortcut of is_edge_feasible (instance #root-shortcut)', t['span'])
+            else:
+                ctx.bad('C04.R4', site + ':root', 'the Err(RootNode) of merge_child_with_parent is unwrapped although p may be the root: the operation would panic', t['span'])
 
 
 def run(ctx):
